@@ -137,19 +137,19 @@ func (v c03Verdict) Sig() string {
 // ---------------------------------------------------------------------------------------------
 
 type c03ListEntry struct {
-	ImportPath string
-	Dir        string
-	Name       string
-	Export     string
-	ForTest    string
-	Standard   bool
-	Incomplete bool
-	GoFiles    []string
-	CgoFiles   []string
+	ImportPath   string
+	Dir          string
+	Name         string
+	Export       string
+	ForTest      string
+	Standard     bool
+	Incomplete   bool
+	GoFiles      []string
+	CgoFiles     []string
 	TestGoFiles  []string
 	XTestGoFiles []string
-	Error      *struct{ Err string }
-	DepsErrors []*struct{ Err string }
+	Error        *struct{ Err string }
+	DepsErrors   []*struct{ Err string }
 }
 
 func (e *c03ListEntry) OK() bool {
